@@ -34,7 +34,8 @@ MANIFEST = {
              'Partial: derivations and the from_product/from_tree/from_index_items/level_add routes, datetime indices, IndexHierarchyGO.append are '
              'covered by correspondence with S only (their results are built through the modelled constructors); IndexHierarchyGO.append outside the '
              'tree surgery itself belongs to C05/C09 (judged here by S only). NaN labels, from_pandas and tuple components of hierarchical labels '
-             'are outside (the last one is listed as a finding).'),
+             'are outside. The dtype resolution of the labels ARRAY of a grow-only index (_update_array_cache: int64 + float64 -> float64) is not '
+             'part of M: Python ints beyond 2**53 meeting floats through append/extend are only observed (finding C02-go-bigint-float-coercion, no refuted witness).'),
     'technique': 'refinement proofs M = S (flat, grow-only histories, hierarchical construction) + differential correspondence + regenerated constants',
 }
 PROPERTY_FILES = ['Properties/C02.v']
@@ -572,7 +573,10 @@ def run_history(ctx, init, ops, touch_pick, snap=None):
     taken = None
     for i, o in enumerate(ops):
         if snap is not None and snap[0] == i:
-            taken = SNAPSHOTS[snap[1]](ix)
+            try:
+                taken = SNAPSHOTS[snap[1]](ix)
+            except Exception as e:  # noqa -- judged by the caller: a valid grow-only index must yield a static one
+                taken = e
         try:
             if o[0] == 'append':
                 ix.append(o[1])
@@ -629,6 +633,41 @@ def classify_history(init, ops):
     return auto, labels, alias_in_extend
 
 
+def lossy_growth(init, ops):
+    '''Input-derived class of the known finding C02-go-bigint-float-coercion: the grow-only index ends with a float64 labels
+    array (ints and floats met through append/extend, or an all-int / all-float start) while holding a Python int that
+    float64 cannot represent exactly.  (A constructor given such a mix at once yields an object array: not in the class.)'''
+    def kind_of(v):
+        if isinstance(v, (bool, np.bool_)):
+            return 'b'
+        if isinstance(v, (int, np.integer)):
+            return 'i' if -2 ** 63 <= v < 2 ** 63 else 'O'
+        if isinstance(v, (float, np.floating)):
+            return 'f'
+        return 'O'
+
+    def inexact(v):
+        return isinstance(v, (int, np.integer)) and not isinstance(v, (bool, np.bool_)) and int(float(v)) != int(v)
+
+    def resolve(a, b):
+        if a is None:
+            return b
+        if a == b:
+            return a
+        return 'f' if {a, b} == {'i', 'f'} else 'O'
+    _, labels, _ = classify_history(init, ops)
+    n0 = len(init[1]) if init[0] == 'labels' else init[1]
+    start = labels[:n0]
+    kind = None
+    for v in start:
+        kind = resolve(kind, kind_of(v))
+    if kind == 'f' and any(inexact(v) for v in start):
+        kind = 'O'                      # the constructor keeps such a mix exact (object array)
+    for v in labels[n0:]:
+        kind = resolve(kind, kind_of(v))
+    return kind == 'f' and any(inexact(v) for v in labels)
+
+
 def go_probes(rng, labels_end, extra):
     probes = list(labels_end)
     rng.shuffle(probes)
@@ -649,6 +688,8 @@ def history_case(ctx, init, ops, stratum, touch_pick=None, all_probes=False):
     tags = {'init': init[0]}
     if alias_in_extend:
         tags['finding'] = 'C02-auto-float-key'
+    elif lossy_growth(init, ops):
+        tags['finding'] = 'C02-go-bigint-float-coercion'
     out = []
     ops_w = list(ops) + [('touch',)]
     ix, outs = run_history(ctx, init, ops_w, touch_pick)
@@ -672,12 +713,19 @@ def history_case(ctx, init, ops, stratum, touch_pick=None, all_probes=False):
                 cand.append(v)
         probes_p = [k for k in cand if not auto_p or auto_probe_class(len(labels_p), k) == 'ok'][:12]
         _, outs_s, static = run_history(ctx, init, ops_w, touch_pick, snap=(i, route))
-        obs_s = reading(obs_lit, static, probes_p)
+        tags_s = dict({'init': init[0], 'static': route}, **({'finding': 'C02-auto-float-key'} if alias_p else
+                                                           {'finding': 'C02-go-bigint-float-coercion'} if lossy_growth(init, ops[:i]) else {}))
+        if isinstance(static, Exception):
+            out.append(Case(stratum + '-static', {'init': repr(init), 'ops_before': repr(ops[:i]), 'route': route, 'error': type(static).__name__},
+                            py_fail=f'{route} of a valid grow-only index raised {type(static).__name__}: {str(static)[:100]}', tags=tags_s))
+            static = None
+        obs_s = reading(obs_lit, static, probes_p) if static is not None else None
         Op, Rp, Pp = lit.lst([op_lit(o) for o in ops[:i]]), lit.lst(outs_s[:i]), vl(probes_p)
-        out.append(Case(stratum + '-static', {'init': repr(init), 'ops_before': repr(ops[:i]), 'route': route, 'ops_after': repr(ops_w[i:]),
+        if obs_s is not None:
+            out.append(Case(stratum + '-static', {'init': repr(init), 'ops_before': repr(ops[:i]), 'route': route, 'ops_after': repr(ops_w[i:]),
                                               'probes': repr(probes_p), 'observed': obs_s[:400]},
                         m=f'chk_M_go {I} {Op} {Pp} {Rp} {obs_s}', s=f'chk_S_go {I} {Op} {Pp} {Rp} {obs_s}',
-                        tags=dict({'init': init[0], 'static': route}, **({'finding': 'C02-auto-float-key'} if alias_p else {})), nontrivial=True))
+                        tags=tags_s, nontrivial=True))
     if ops and ops[-1][0] != 'touch':
         ix, outs = run_history(ctx, init, ops, touch_pick)
         obs = reading(obs_lit_cold, ix, probes)
@@ -765,6 +813,37 @@ def static_from_go_cases(ctx):
         ctx.count(f'static-from-go:datetime-{unit}')
         yield Case('api:static-from-go', {'route': f'{type(static).__name__}({cls_go.__name__})', 'labels': repr(strs), 'added_afterwards': repr(adds), 'observed': obs[:300]},
                    m=f'chk_M_index {L} {plits} {obs}', s=f'chk_S_index {L} {plits} {obs}', tags={'route': 'datetime'})
+
+
+BIG = 2 ** 53
+BIGINT_SETS = [[-BIG - 1, -BIG, 0.5], [BIG + 1, BIG, 0.5], [-(10 ** 17), 1.5], [BIG + 1, 0.5], [BIG + 1, BIG + 2, 0.5, -0.25],
+               [-BIG - 1, BIG + 1, 2.0], [BIG + 1, BIG + 3], [0.5, -BIG - 3, -BIG - 2, 7], [10 ** 17 + 1, 10 ** 17, 1.5, 0], [-BIG - 1, 1.5, 'a']]
+
+
+def bigint_cases(ctx):
+    '''Python ints that float64 cannot hold exactly, mixed with floats: every view of the index must describe the same label
+    sequence and lookup(values[i]) = i.  Constructors (all flat routes, hierarchical leaves) and grow-only histories.'''
+    import static_frame as sf
+    R = routes()
+    names = sorted(R) if ctx.tier == 'thorough' else ['Index', 'IndexGO', 'Index(generator)', 'Series.index', 'FrameGO.columns']
+    for labels in BIGINT_SETS:
+        for perm in ([labels, labels[::-1]] if ctx.tier == 'quick' else list(itertools.permutations(labels))[:8]):
+            perm = list(perm)
+            probes = perm + [BIG, -BIG, float(BIG), 0.5, 'zz']
+            for name in names:
+                yield index_case(ctx, name, R[name], perm, probes, 'api:bigint-construct')
+            table = [('a', v) for v in perm] + [('b', perm[0])]
+            yield from hier_case(ctx, 'IH.from_labels', hier_routes()['IH.from_labels'], table, [list(x) for x in table] + [['a', float(BIG)], ['b', 0.5]], 'api:bigint-construct')
+    # grown: ints and floats meet through append / extend
+    starts = [[0.5], [], [1, 2], [BIG + 1, BIG], [0.5, 'a'], [-BIG - 1]]
+    seqs = [[-BIG - 1, -BIG], [BIG + 1, BIG], [0.5, BIG + 1], [BIG + 1, 0.5, BIG + 2], [-(10 ** 17) - 1, 1.5], [BIG + 1, 'x', 0.5], [2.0, BIG * 4]]
+    for start in (starts if ctx.tier == 'thorough' else starts[:4]):
+        for seq in seqs:
+            ops = [('append', v) for v in seq]
+            yield from history_case(ctx, ('labels', start), ops, 'api:bigint-go', all_probes=True)
+            yield from history_case(ctx, ('labels', start), [('extend', list(seq))], 'api:bigint-go', all_probes=True)
+            if ctx.tier == 'thorough':
+                yield from history_case(ctx, ('labels', start), [ops[0], ('touch',)] + ops[1:], 'api:bigint-go', all_probes=True)
 
 
 def go_random_cases(ctx):
@@ -1346,7 +1425,7 @@ def automap_oracle_cases(ctx):
                        nontrivial=n >= 2)
 
 
-STRATA = [construct_small_cases, construct_random_cases, dtype_cases, auto_cases, go_small_cases, go_promotion_cases, go_random_cases, static_from_go_cases,
+STRATA = [construct_small_cases, construct_random_cases, dtype_cases, auto_cases, go_small_cases, go_promotion_cases, go_random_cases, static_from_go_cases, bigint_cases,
           multi_key_cases, derive_cases, auto_derive_cases, datetime_cases, hier_small_cases, hier_random_cases, hier_derive_cases, ihgo_append_cases,
           automap_oracle_cases]
 
